@@ -183,9 +183,13 @@ def render_doc(doc, lay, module_name=False, head=None):
         elif k == 7:
             lead = ind + BRACKET_CMT[0] + " "
             lay.features.add("comment-before-doc-opener-on-same-line")
+    if not head and doc.get("opener"):
+        head = " " + doc["opener"]
     out = [lead + "#[[[" + (head or "")]
     for l in doc["lines"]:
-        if doc.get("form") == "bare":
+        if l == "" and doc.get("empty_bare"):
+            out.append("")                  # as left behind by editors that strip trailing blanks when re-indenting
+        elif doc.get("form") == "bare":
             out.append(l)
         elif doc.get("form") == "mixed" and l != "" and l[0] not in " #[]" and (len(out) % 3 != 0):
             out.append(ind + "#" + l)       # '#' leader with zero following spaces (at most one is removed)
